@@ -30,6 +30,7 @@ const (
 	vtimePath = "verif/rt/vtime"
 	vrandPath = "verif/rt/vrand"
 	vnetPath  = "verif/rt/vnet"
+	vtlsPath  = "verif/rt/vtls"
 )
 
 var fineFiles = map[string]bool{}
@@ -73,7 +74,7 @@ func main() {
 	// exported names of the shims: a reference to a name a shim does not
 	// provide keeps the real package (see fallbackSelector)
 	shims, err := packages.Load(&packages.Config{Mode: packages.NeedName | packages.NeedTypes, Dir: cfg.Dir, Env: cfg.Env},
-		vsyncPath, vtimePath, vrandPath, vnetPath)
+		vsyncPath, vtimePath, vrandPath, vnetPath, vtlsPath)
 	if err != nil {
 		fatal(err)
 	}
@@ -186,10 +187,13 @@ type rewriter struct {
 	doneCall map[*ast.CallExpr]bool
 	rangeCh  map[*ast.RangeStmt]bool
 	rangeMap map[*ast.RangeStmt]bool
-	sels     map[*ast.SelectStmt]*selInfo
-	labeled  map[ast.Stmt]bool
-	tmp      int
-	err      error
+	// rangeStable: range over a map whose keys have no order (pointers,
+	// interfaces, structs): iterated in insertion order (vrt.StableKeys)
+	rangeStable map[*ast.RangeStmt]bool
+	sels        map[*ast.SelectStmt]*selInfo
+	labeled     map[ast.Stmt]bool
+	tmp         int
+	err         error
 }
 
 func (rw *rewriter) fail(n ast.Node, format string, args ...interface{}) {
@@ -280,6 +284,7 @@ func (rw *rewriter) rewrite() ([]byte, error) {
 	rw.doneCall = map[*ast.CallExpr]bool{}
 	rw.rangeCh = map[*ast.RangeStmt]bool{}
 	rw.rangeMap = map[*ast.RangeStmt]bool{}
+	rw.rangeStable = map[*ast.RangeStmt]bool{}
 	rw.sels = map[*ast.SelectStmt]*selInfo{}
 	rw.labeled = map[ast.Stmt]bool{}
 
@@ -359,10 +364,11 @@ func (rw *rewriter) replacements() map[string]string {
 		"time":      vtimePath,
 		"math/rand": vrandPath,
 	}
-	// package net is only replaced inside the qiloop bus packages (the
+	// packages net and crypto/tls are only replaced inside the qiloop bus packages (the
 	// harness uses vnet explicitly)
 	if strings.HasPrefix(rw.pkg.PkgPath, "github.com/lugu/qiloop/") {
 		repl["net"] = vnetPath
+		repl["crypto/tls"] = vtlsPath
 	}
 	return repl
 }
@@ -438,6 +444,17 @@ func (rw *rewriter) pre(c *astutil.Cursor) bool {
 				rw.recv2[u] = true
 			}
 		}
+		// m[k] = v on a map whose keys have no order: the key is noted at
+		// insertion so that a later range can follow the insertion order
+		for _, l := range n.Lhs {
+			if ix, ok := unparen(l).(*ast.IndexExpr); ok {
+				if t := rw.info.TypeOf(ix.X); t != nil {
+					if _, isMap := t.Underlying().(*types.Map); isMap && !orderedKey(t) {
+						ix.Index = &ast.CallExpr{Fun: rw.vrt("NoteKey"), Args: []ast.Expr{ix.Index}}
+					}
+				}
+			}
+		}
 	case *ast.ValueSpec:
 		if len(n.Names) == 2 && len(n.Values) == 1 {
 			if u, ok := unparen(n.Values[0]).(*ast.UnaryExpr); ok && u.Op == token.ARROW {
@@ -481,6 +498,9 @@ func (rw *rewriter) pre(c *astutil.Cursor) bool {
 				rw.rangeCh[n] = true
 			} else if orderedKey(t) {
 				rw.rangeMap[n] = true
+			} else if _, ok := t.Underlying().(*types.Map); ok {
+				rw.rangeMap[n] = true
+				rw.rangeStable[n] = true
 			}
 		}
 	case *ast.SelectStmt:
@@ -681,6 +701,10 @@ func (rw *rewriter) rewriteRangeChan(n *ast.RangeStmt) ast.Stmt {
 
 func (rw *rewriter) rewriteRangeMap(n *ast.RangeStmt) ast.Stmt {
 	mExpr := n.X
+	keysFn := "SortedKeys"
+	if rw.rangeStable[n] {
+		keysFn = "StableKeys"
+	}
 	var pre []ast.Stmt
 	if !simpleExpr(mExpr) {
 		if rw.labeled[n] {
@@ -737,7 +761,7 @@ func (rw *rewriter) rewriteRangeMap(n *ast.RangeStmt) ast.Stmt {
 		Key:   ast.NewIdent("_"),
 		Value: ast.NewIdent(keyName),
 		Tok:   token.DEFINE,
-		X:     &ast.CallExpr{Fun: rw.vrt("SortedKeys"), Args: []ast.Expr{mExpr}},
+		X:     &ast.CallExpr{Fun: rw.vrt(keysFn), Args: []ast.Expr{mExpr}},
 		Body:  &ast.BlockStmt{List: append(head, n.Body)},
 	}
 	if len(pre) == 0 {
@@ -928,7 +952,7 @@ func (rw *rewriter) mapAccesses(s ast.Stmt) []ast.Stmt {
 				if id, ok := y.Fun.(*ast.Ident); ok && id.Name == "delete" && len(y.Args) == 2 {
 					note(y.Args[0], true)
 				}
-				if sel, ok := y.Fun.(*ast.SelectorExpr); ok && sel.Sel.Name == "SortedKeys" && len(y.Args) == 1 {
+				if sel, ok := y.Fun.(*ast.SelectorExpr); ok && (sel.Sel.Name == "SortedKeys" || sel.Sel.Name == "StableKeys") && len(y.Args) == 1 {
 					note(y.Args[0], false)
 				}
 			}
